@@ -35,6 +35,9 @@ def run(idx, rep, tier):
     # reset before the run is named, so its members do not write into — and read back — an earlier run's directory
     from . import c09 as _c09
     _c09.prep_protocol(idx, rep, "R6")
+    # an exception that gets out of one member on some line and is handled without re-raising costs that member its say about the line and
+    # nothing else: the members after it are still handed the line (track_line + consideration), as they are when they run alone
+    byline(idx, rep, "R6", "R3", tier, scenarios=("abort",), aspects=("schedule", "yields"))
     r1(idx, rep)
     r2(idx, rep)
     r4(idx, rep)
